@@ -133,7 +133,8 @@ ASMJIT_END_NAMESPACE
 
 alignas(16) static unsigned char emitter_mem[sizeof(BaseEmitter)];
 
-template<Arch ARCH, bool kKnownC07A>
+enum Known { K_NONE, K_C07A, K_C07B };
+template<Arch ARCH, Known KNOWN>
 static void run(Platform plat, PlatformABI pabi, CallConvId ccid) {
   using namespace mach;
   constexpr bool k32 = ARCH == Arch::kX86;
@@ -173,8 +174,11 @@ static void run(Platform plat, PlatformABI pabi, CallConvId ccid) {
   V_ASSERT(ef == Error::kOk, "finalize accepted");
   uint32_t A = f.final_stack_alignment(), N = cc.natural_stack_alignment();
   bool has_fp = f.has_preserved_fp(), has_da = f.has_dynamic_alignment();
-#if KF_C07A
-  if (k32) { if (kKnownC07A) V_ASSUME(!has_da && A > N); else V_ASSUME(has_da || A <= N); }
+#if KF_C07A   // x86-32: alignment 8 promised without realignment (see h_frame.cpp)
+  if (k32) { if (KNOWN == K_C07A) V_ASSUME(!has_da && A > N); else V_ASSUME(has_da || A <= N); }
+#endif
+#if KF_C07B   // a saved k register shares its slot with the next k or mm register (Reg::size() of a mask register is 0)
+  { uint32_t sk = f.saved_regs(RegGroup::kMask); bool two_k = (sk & (sk - 1)) != 0 || (sk != 0 && f.saved_regs(RegGroup::kX86_MM) != 0); if (KNOWN == K_C07B) V_ASSUME(two_k); else V_ASSUME(!two_k); }
 #endif
 
   // ---- machine at function entry
@@ -245,19 +249,20 @@ static void run(Platform plat, PlatformABI pabi, CallConvId ccid) {
   if (has_da && !has_fp) V_WITNESS("realigned-with-da-slot");
   if (!has_da && has_fp) V_WITNESS("static-with-fp");
   if (!has_da && !has_fp && f.saved_regs(RegGroup::kVec) && P) V_WITNESS("static-push-and-vector-saves");
-  if (f.callee_stack_cleanup()) V_WITNESS("ret-imm");
+  if constexpr (k32) { if (f.callee_stack_cleanup()) V_WITNESS("ret-imm"); }
 }
 
 static const CallConvId ids32[8] = { CallConvId::kCDecl, CallConvId::kStdCall, CallConvId::kFastCall, CallConvId::kVectorCall, CallConvId::kThisCall,
                                      CallConvId::kRegParm3, CallConvId::kLightCall2, CallConvId::kLightCall4 };
 HARNESS h_prolog_x86() {
   uint32_t k = nondet_u8(); bool win = (k & 8) != 0;
-  run<Arch::kX86, false>(win ? Platform::kWindows : Platform::kLinux, win ? PlatformABI::kMSVC : PlatformABI::kGNU, ids32[k & 7]);
+  run<Arch::kX86, K_NONE>(win ? Platform::kWindows : Platform::kLinux, win ? PlatformABI::kMSVC : PlatformABI::kGNU, ids32[k & 7]);
 }
 HARNESS h_prolog_x86_kf_C07A() {
   uint32_t k = nondet_u8(); bool win = (k & 8) != 0;
-  run<Arch::kX86, true>(win ? Platform::kWindows : Platform::kLinux, win ? PlatformABI::kMSVC : PlatformABI::kGNU, ids32[k & 7]);
+  run<Arch::kX86, K_C07A>(win ? Platform::kWindows : Platform::kLinux, win ? PlatformABI::kMSVC : PlatformABI::kGNU, ids32[k & 7]);
 }
-HARNESS h_prolog_x64_sysv() { run<Arch::kX64, false>(Platform::kLinux, PlatformABI::kGNU, CallConvId::kX64SystemV); }
-HARNESS h_prolog_x64_win() { run<Arch::kX64, false>(Platform::kWindows, PlatformABI::kMSVC, nondet_bool() ? CallConvId::kX64Windows : CallConvId::kVectorCall); }
-HARNESS h_prolog_x64_light() { run<Arch::kX64, false>(Platform::kLinux, PlatformABI::kGNU, CallConvId(uint32_t(CallConvId::kLightCall2) + nondet_u8() % 3)); }
+HARNESS h_prolog_x64_sysv() { run<Arch::kX64, K_NONE>(Platform::kLinux, PlatformABI::kGNU, CallConvId::kX64SystemV); }
+HARNESS h_prolog_x64_win() { run<Arch::kX64, K_NONE>(Platform::kWindows, PlatformABI::kMSVC, nondet_bool() ? CallConvId::kX64Windows : CallConvId::kVectorCall); }
+HARNESS h_prolog_x64_light() { run<Arch::kX64, K_NONE>(Platform::kLinux, PlatformABI::kGNU, CallConvId(uint32_t(CallConvId::kLightCall2) + nondet_u8() % 3)); }
+HARNESS h_prolog_x64_kf_C07B() { run<Arch::kX64, K_C07B>(Platform::kLinux, PlatformABI::kGNU, CallConvId::kX64SystemV); }
